@@ -42,6 +42,14 @@ def build(name="SH"):
     m.add("I5", Type("INTEGER", value_c=rng_(-129, 100)))
     m.add("I6", Type("INTEGER", value_c=rng_(-10, 32768)))
     m.add("I7", Type("INTEGER", value_c=rng_(-2147483649, 5)))
+    # extensible SEQUENCEs whose root ends in a run of OPTIONAL / DEFAULT components, with additions that may all be absent:
+    # what follows the last present root component is then found by looking across the absent ones into the extension
+    for nm_, tail_ in (("XT1", 1), ("XT2", 2), ("XT3", 3)):
+        root_ = [Comp("h", Type("INTEGER"))]
+        for j_ in range(tail_):
+            root_.append(Comp("o%d" % j_, Type(["BOOLEAN", "IA5String", "INTEGER"][j_]), optional=(j_ != 2),
+                              has_default=(j_ == 2), default=(5 if j_ == 2 else None)))
+        m.add(nm_, Type("SEQUENCE", comps=root_, ext=[Comp("x0", Type("OCTET STRING"), optional=True), Comp("x1", Type("NULL"), optional=True)]))
     # ranges that end exactly on, one below and one above the limits of the fixed OER widths (X.696 10) and of the PER
     # range-octet counts: the compiler emits the width table, off-by-one there changes the wire format only at the limit
     for i_, (lo_, hi_) in enumerate(WIDTH_EDGES):
@@ -470,6 +478,14 @@ def values(mod, name, rng, quick):
         k = int(name[1:])
         out += [{"a%d" % k: 7}, {"a%d" % k: 7, "e%d-1" % k: 1, "e%d-%d" % (k, k): k}, {"a%d" % k: 1, "e%d-%d" % (k, k): -1},
                 dict([("a%d" % k, 0)] + [("e%d-%d" % (k, i), i) for i in range(1, k + 1)]), {"a%d" % k: 2, "e%d-%d" % (k, k // 2): 5}]
+    elif name in ("XT1", "XT2", "XT3"):
+        n_ = int(name[2:])
+        full = {"h": 1, "o0": True, "o1": "ab", "o2": 7}
+        out += [{"h": 1}, {"h": 2, "x0": b"\x01"}, {"h": 3, "x1": None}]
+        for j_ in range(n_):
+            out.append(dict([("h", 10 + j_)] + [("o%d" % i_, full["o%d" % i_]) for i_ in range(j_ + 1)]))            # prefix present
+            out.append(dict([("h", 20 + j_), ("o%d" % j_, full["o%d" % j_])]))                                       # one present
+            out.append(dict([("h", 30 + j_), ("o%d" % j_, full["o%d" % j_]), ("x1", None)]))
     elif name == "X70":
         out += [{"a70": 1}, {"a70": 1, "e70-70": 5}, {"a70": 1, "e70-1": 5}, {"a70": 1, "e70-64": 5, "e70-65": 6}, {"a70": 1, "e70-63": -1}]
     elif name == "N70":
